@@ -2,6 +2,7 @@ import Shuttle.Drive.Codec
 import Shuttle.Drive.C05
 import Shuttle.Model.Inject
 import Shuttle.Model.Runtime
+import Shuttle.Model.Visual
 /-! Wire format of the program language and the `run` requests. -/
 namespace Shuttle.Drive.LangD
 open Shuttle Shuttle.Drive Shuttle.Lang
@@ -131,6 +132,28 @@ def handle : Sexp → String
         match runTrace Sel.isSlice (opsOf evs) with
         | .ok p => "ok " ++ showPath p
         | .error _ => "err"
+      | .error .fuel => "fuel"
+      | .error .err => "err"
+    | _, _, _ => "bad-input"
+  -- `(visual table (fns…) name (args…))`: the calls a renderer receives from the path visualizer
+  | .list [.atom "visual", tbl, .list fns, .atom name, .list args] =>
+    match lookTable? tbl, fns.mapM fn?, args.mapM val? with
+    | some tbl, some fns, some args =>
+      let traps : List (String × Grid) := tbl.filterMap fun e =>
+        match e.1, e.2.2 with
+        | .trap, .grid g => some (e.2.1, g.val)
+        | _, _ => none
+      let showCall : Visual.Call → String := fun c => match c with
+        | .renderTraps z n => s!"(render_traps {showGrid z} {n})"
+        | .topHatCz z u l => s!"(top_hat_cz {showGrid z} {showRat u} {showRat l})"
+        | .localR z => s!"(local_r {showGrid z})"
+        | .localRz z => s!"(local_rz {showGrid z})"
+        | .globalR => "(global_r)"
+        | .globalRz => "(global_rz)"
+        | .renderPath p => s!"(render_path {C05.showPathVal p})"
+        | .unknown w => s!"(unknown {w})"
+      match Visual.visualize FUEL ⟨fns, tableLook tbl⟩ traps name args with
+      | .ok calls => "ok " ++ showList showCall calls
       | .error .fuel => "fuel"
       | .error .err => "err"
     | _, _, _ => "bad-input"
